@@ -302,6 +302,11 @@ def range_tasks(tier):
         ("applicable", ["and", ["or", ["r"], ["forall", ["?z", "-", "t1"], ["and", ["p", "?z"]]]]], ["and"]),
         ("applicable", ["and", ["or", ["not", ["p", "?x"]], ["forall", ["?z", "-", "t3"], ["or", ["p", "?z"], ["q", "?x", "?z"]]]]], ["and"]),
         ("apply", ["and"], ["and", ["when", ["forall", ["?z", "-", "t1"], ["or", ["p", "?z"], ["q", "?x", "?z"]]], ["r"]]]),
+        # the quantified variable has the name of the action's parameter (?x - t1) and another type
+        ("apply", ["and"], ["and", ["forall", ["?x", "-", "t3"], ["when", ["not", ["p", "?x"]], ["p", "?x"]]]]),
+        ("apply", ["and"], ["and", ["forall", ["?x", "-", "object"], ["when", ["r"], ["ob", "?x"]]]]),
+        ("apply", ["and"], ["and", ["forall", ["?x", "-", "t2"], ["when", ["not", ["s", "?x"]], ["s", "?x"]]]]),
+        ("applicable", ["and", ["forall", ["?x", "-", "t4"], ["and", ["p", "?x"]]]], ["and"]),
     ]
     tasks = []
     for mode, pre, eff in progs:
